@@ -480,6 +480,28 @@ def call_scaling(c):
     return weights_from_warning_scaling(np.array(c["S"]), c["w"], dimname("sev"), c["sev"], dimname("prob"), c["probs"])
 
 
+def scaling_spec(c):
+    """declarative statement of the Appendix-B weights (independent of the loop in the code): level l puts its assessment
+    weight w_l on the corner points of the staircase {S >= l}: decision point (row r counted from the bottom, severity column j)
+    with r = h_j(l) = lowest row where column j reaches level l, provided r is strictly below every h_j'(l) of the less severe
+    columns j' < j.  Returned with rows in decreasing probability (top row = highest threshold)."""
+    S, w = c["S"], c["w"]
+    rows, cols = len(S), len(S[0])
+    n_prob, n_sev = rows - 1, cols - 1
+    W = [[0.0] * n_sev for _ in range(n_prob)]          # W[r-1][j-1], r from the bottom
+    for lvl in range(1, len(w) + 1):
+        best = n_prob + 1
+        for j in range(1, cols):
+            hs = [r for r in range(rows) if S[rows - 1 - r][j] >= lvl]
+            if not hs:
+                continue
+            h = min(hs)
+            if 0 < h < best:
+                W[h - 1][j - 1] += w[lvl - 1]
+                best = h
+    return W[::-1]
+
+
 # ------------------------------------------------------------------------------------------ interface
 def correspondence(ctx):
     run_firm_batch(ctx, "impl-vs-model:firm", "correspondence", "c12.firm", ctx.n(120, 2500))
@@ -585,6 +607,18 @@ def oracle(ctx, boost):
             ctx.fail("weight-matrix-orientation", "property", "weights_from_warning_scaling", "shape/orientation/sign",
                      dict(c, check="scaling-property"), observed={"prob": pc, "values": v.tolist()},
                      expected="rows in decreasing probability, shape (n_prob, n_sev), non-negative")
+            continue
+        spec = scaling_spec(c)
+        got = da.transpose("prob", "sev").values.tolist()
+        if got != spec:
+            tall = len(c["S"]) - 1 > max(max(max(r) for r in c["S"]), len(c["w"]))
+            if tall:      # notes/C12.md N1: `lowest_prob_index = max_level + 1` loses crossovers above row max_level
+                ctx.tag("finding:scaling-tall-matrix-loses-level")
+                if not FINDINGS:
+                    continue
+            ctx.fail("weight-matrix-orientation", "property", "weights_from_warning_scaling", "weights!=staircase-corners",
+                     dict(c, check="scaling-property"), observed=got, expected=spec,
+                     tags={"finding": "scaling-tall"} if tall else {})
     scaling_probe(ctx)
 
 
@@ -628,6 +662,9 @@ def replay(ctx, payload):
         return bool(rm_compare(case, res[0], "spec"))
     if chk in ("mw-property", "mw"):
         return bool(mw_property(case))
+    if chk == "scaling-property":
+        da = call_scaling(case)
+        return da.transpose("prob", "sev").values.tolist() != scaling_spec(case)
     if chk == "firm-guard":
         m = core.run_driver("C12", [firm_bad_op(case)])[0]
         return (firm_bad_outcome(case) == "ValueError") != bool(m)
